@@ -474,6 +474,10 @@ type world struct {
 	lastFirst int64 // BlocksFirst at the previous idle point (-1 unknown)
 	viol      *simcore.Violation
 	offSeen   bool // the indexer switched itself off at some point of this run
+
+	lastRange  rawdb.FilterMapsRange // last persisted index range (watched through the disk hook)
+	haveRange  bool
+	pulledDown map[uint64]bool // blocks that became "first indexed block" by the range being pulled down
 }
 
 func (w *world) fail(v *simcore.Violation) {
@@ -838,8 +842,20 @@ func (w *world) startFM(view *filtermaps.ChainView) {
 		simcore.Harnessf("NewFilterMaps: %v", err)
 	}
 	w.fm = fm
-	if trace {
-		w.indexKV.Hook = func(op *simdisk.KVOp) {
+	w.indexKV.Hook = func(op *simdisk.KVOp) {
+		// Watch the persisted index range: the recorded finding "first-indexed-block-starts-
+		// in-unindexed-map" has a precise signature -- the first indexed block moves DOWN
+		// although no map was added at the tail (common.Range.SetAfterLast pulling first
+		// along). Only blocks marked here are excused by that known finding.
+		rs, ok, err := rawdb.ReadFilterMapsRange(w.indexKV.Mem())
+		w.mu.Lock()
+		if err == nil && ok && w.haveRange && rs.BlocksFirst < w.lastRange.BlocksFirst &&
+			rs.MapsFirst == w.lastRange.MapsFirst && rs.TailPartialEpoch == w.lastRange.TailPartialEpoch {
+			w.pulledDown[rs.BlocksFirst] = true
+		}
+		w.lastRange, w.haveRange = rs, err == nil && ok
+		w.mu.Unlock()
+		if trace {
 			k := op.Key
 			if op.Kind == simdisk.OpBatch && len(op.Batch) > 0 {
 				k = op.Batch[0].Key
@@ -1115,7 +1131,10 @@ func (w *world) runQuery(qid int, spec QuerySpec, phase string) {
 			v := simcore.Violf("logs-missing", "%s: canonical matching log %s is missing from the result (%d returned, %d expected)", ctxs, descLog(l), len(got), len(want))
 			// one recognised class: the index claims its first block as fully indexed although
 			// that block starts in a map of an unindexed (deleted) epoch
-			if r := w.fm.VerifIndexedRange(); r.Initialized && l.BlockNumber == r.BlocksFirst && r.BlocksAfterLast > r.BlocksFirst {
+			w.mu.Lock()
+			marked := w.pulledDown[l.BlockNumber]
+			w.mu.Unlock()
+			if r := w.fm.VerifIndexedRange(); marked && r.Initialized && l.BlockNumber == r.BlocksFirst && r.BlocksAfterLast > r.BlocksFirst {
 				if ptr, err := rawdb.ReadBlockLvPointer(w.indexKV, l.BlockNumber); err == nil && uint32(ptr>>w.p.LogValuesPerMap) < r.MapsFirst {
 					v.Key = "logs-missing:first-indexed-block-starts-in-unindexed-map"
 					v.Msg += fmt.Sprintf(" (indexed range: blocks %d..%d, maps %d..%d; block %d starts at log value %d = map %d, which is unindexed)",
@@ -1207,7 +1226,7 @@ func (w *world) checkIdle(where string) {
 func Run(t *testing.T, pl any) *simcore.Result {
 	p := pl.(*Plan)
 	res := simcore.NewResult()
-	w := &world{p: p, res: res, getLogs: map[int]int{}, obs: simcore.NewHash(), lastFirst: -1, history: p.History}
+	w := &world{p: p, res: res, getLogs: map[int]int{}, obs: simcore.NewHash(), lastFirst: -1, history: p.History, pulledDown: map[uint64]bool{}}
 	w.params = filtermaps.VerifParams(p.LogMapHeight, p.LogMapWidth, p.LogMapsPerEpoch, p.LogValuesPerMap, p.BaseRowGroupSize, p.BaseRowLengthRatio, p.LogLayerDiff)
 	for i, b := range p.Blocks {
 		if b.Parent >= i || b.Parent < -1 {
